@@ -88,6 +88,7 @@ def run(check, prog):
     cluster_handoff(check, prog)
     option_slots(check, prog)
     fortran_double_precision(check, prog)
+    fortran_single_precision_quotients(check, prog)
     cluster_order_cap(check, prog)
     # "at every detector point and polarization": the lens theories place the
     # Mie series relative to the polarisation direction (rule shared with C05)
@@ -1057,6 +1058,214 @@ def fortran_double_precision(check, prog):
     if not nbad:
         check.ok('H9-double-precision', 'mie_f sources',
                  'no bare CMPLX in any unit reachable from Python', MIE_DIR)
+
+
+_F_TOKEN = None
+
+
+def _f_tokens(text):
+    """tokens of a Fortran expression: ('num', kind) | ('id', name) | op"""
+    import re
+    global _F_TOKEN
+    if _F_TOKEN is None:
+        _F_TOKEN = re.compile(
+            r"\s*(?:(\d+\.\d*(?:[eEdD][+-]?\d+)?(?:_\w+)?|\.\d+(?:[eEdD][+-]?\d+)?(?:_\w+)?|"
+            r"\d+[eEdD][+-]?\d+|\d+)|([A-Za-z_]\w*)|(\*\*|//|[-+*/(),]|\.[a-zA-Z]+\.|[<>=/]=?|:))")
+    out, i = [], 0
+    while i < len(text):
+        m = _F_TOKEN.match(text, i)
+        if not m or m.end() == i:
+            return None
+        i = m.end()
+        if m.group(1):
+            lit = m.group(1).lower()
+            if 'd' in lit or '_' in lit:
+                out.append(('num', 'double'))
+            elif '.' in lit or 'e' in lit:
+                out.append(('num', 'single'))
+            else:
+                out.append(('num', 'int'))
+        elif m.group(2):
+            out.append(('id', m.group(2).lower()))
+        else:
+            out.append(m.group(3))
+    return out
+
+
+def single_precision_quotients(text, is_int):
+    """Quotients of an assignment's right-hand side that Fortran evaluates in
+    default (single) precision although an integer variable takes part: every
+    operand is an integer entity or a real literal without a D exponent.
+    `is_int(name)`: whether the identifier is of integer type.  Returns the
+    source text of the statement once per such quotient."""
+    if '=' not in text:
+        return []
+    lhs, _, rhs = text.partition('=')
+    if rhs.startswith('=') or not lhs.strip() or lhs.strip().lower().startswith((
+            'if', 'do ', 'call', 'print', 'write', 'parameter', 'data')):
+        return []
+    toks = _f_tokens(rhs.strip())
+    if not toks:
+        return []
+    RANK = {'int': 0, 'single': 1, 'double': 2}
+    pos = [0]
+    hits = []
+
+    def peek():
+        return toks[pos[0]] if pos[0] < len(toks) else None
+
+    def take():
+        t = peek()
+        pos[0] += 1
+        return t
+
+    def join(a, b):
+        return (a[0] if RANK[a[0]] >= RANK[b[0]] else b[0], a[1] or b[1])
+
+    def primary():
+        t = take()
+        if t is None:
+            raise ValueError
+        if t in ('-', '+'):
+            return primary()
+        if t == '(':
+            v = expr()
+            if take() != ')':
+                raise ValueError
+            return v
+        if isinstance(t, tuple) and t[0] == 'num':
+            return (t[1], False)
+        if isinstance(t, tuple) and t[0] == 'id':
+            name = t[1]
+            if peek() == '(':
+                take()
+                args = []
+                if peek() != ')':
+                    args.append(expr())
+                    while peek() in (',', ':'):
+                        take()
+                        if peek() not in (')', ','):
+                            args.append(expr())
+                if take() != ')':
+                    raise ValueError
+                if name in ('dble', 'dfloat', 'dcmplx', 'dreal', 'dimag'):
+                    return ('double', False)
+                if name in ('real', 'float', 'sngl', 'cmplx'):
+                    return ('single', any(a[1] for a in args))
+                if name in ('int', 'nint', 'mod', 'max0', 'min0', 'len', 'size'):
+                    return ('int', any(a[1] for a in args) or True)
+                if is_int(name):
+                    return ('int', True)
+                v = ('double', False)
+                return v
+            return ('int', True) if is_int(name) else ('double', False)
+        raise ValueError
+
+    def power():
+        v = primary()
+        if peek() == '**':
+            take()
+            e = power()
+            v = (v[0] if v[0] != 'int' or e[0] == 'int' else e[0], v[1] or e[1])
+        return v
+
+    def term():
+        v = power()
+        while peek() in ('*', '/'):
+            op = take()
+            w = power()
+            r = join(v, w)
+            if op == '/' and r[0] == 'single' and r[1]:
+                hits.append(text.strip())
+            v = r
+        return v
+
+    def expr():
+        v = term()
+        while peek() in ('+', '-'):
+            take()
+            v = join(v, term())
+        return v
+    try:
+        expr()
+    except (ValueError, IndexError):
+        return []
+    return hits
+
+
+def fortran_single_precision_quotients(check, prog):
+    """H9b: no series weight is computed in single precision.  In Fortran a real
+    literal without a D exponent is single precision, and an expression whose
+    other operands are integers stays single: `(2.*n + 1.) / (n * (n + 1.))` is
+    rounded to 24 bits before it is stored in a double -- every amplitude built
+    from it is off by ~1e-8 relative, which is what separates 4 pi / k^2 Re S(0)
+    from C_ext computed in Python's double precision.  Rule: in every unit
+    reachable from Python, no quotient whose operands are integer variables and
+    default-real literals only (a literal-only quotient such as `1./3.` in an
+    order estimate involves no variable and is not looked at)."""
+    import re
+    from hpstatic.fortran import FortranProgram
+    from .c10 import meson_inputs, MIE_DIR, python_entry_points
+    files = meson_inputs(prog.root, MIE_DIR)
+    fp = FortranProgram(prog.root, files)
+    entries = python_entry_points(prog, ['mieangfuncs', 'scsmfo_min', 'uts_scsmfo'])
+    reach = {}
+    for ent in entries:
+        r = fp.reachable(ent)
+        if r:
+            reach.update(r)
+    # the walker itself, on the two forms it must tell apart
+    ii = lambda n: n in ('n', 'm', 'nn1')
+    assert single_precision_quotients('prefactor = (2.*n + 1.) / (n * (n + 1.))', ii)
+    assert single_precision_quotients('pref = nn1 * (1. / m)', ii)
+    assert not single_precision_quotients('prefactor = (2.d0*n + 1.d0) / (n * (n + 1.d0))', ii)
+    assert not single_precision_quotients('dn(i - 1) = i / z - 1. / (dn(i) + i / z)', ii)
+    assert not single_precision_quotients('xv=xv**(1./3.)', ii)
+    assert not single_precision_quotients('fmn=1./fnr(n-m+1)/fnr(n+m)', ii)
+    DECL = re.compile(r'^\s*integer\b[^:]*?(?:::)?\s*(.*)$', re.I)
+    nst, nbad, seen = 0, 0, set()
+    for name in sorted(reach):
+        u = fp.units[name]
+        if id(u) in seen:
+            continue
+        seen.add(id(u))
+        texts = [t for _, t in u.stmts]
+        none = any(re.match(r'^\s*implicit\s+none', t, re.I) for t in texts)
+        declared = set()
+        non_int = set()
+        for t in texts:
+            m = DECL.match(t)
+            if m and not re.match(r'^\s*integer\s+function', t, re.I):
+                for nm in re.findall(r'([A-Za-z_]\w*)\s*(?:\([^)]*\))?\s*(?:=[^,]*)?(?:,|$)',
+                                     m.group(1)):
+                    declared.add(nm.lower())
+            m2 = re.match(r'^\s*(real|double\s+precision|complex|logical|character)\b'
+                          r'[^:]*?(?:::)?\s*(.*)$', t, re.I)
+            if m2:
+                for nm in re.findall(r'([A-Za-z_]\w*)', m2.group(2)):
+                    non_int.add(nm.lower())
+
+        def is_int(nm, declared=declared, non_int=non_int, none=none):
+            if nm in declared:
+                return True
+            if nm in non_int or none:
+                return False
+            return nm[0] in 'ijklmn'
+        for line, t in u.stmts:
+            nst += 1
+            for hit in single_precision_quotients(t, is_int):
+                nbad += 1
+                check.bad('H9-double-precision', '%s: %s' % (u.name, ' '.join(hit.split())),
+                          'this quotient has only integer variables and default-real '
+                          'literals as operands: Fortran evaluates it in single '
+                          'precision and the 24-bit result is what the double on the '
+                          'left receives (write the literals with a D exponent)',
+                          '%s:%d' % (u.path, line))
+    check.floor('Fortran statements scanned for single-precision quotients', nst, 500)
+    if not nbad:
+        check.ok('H9-double-precision', 'mie_f quotients',
+                 'no quotient of integer variables and default-real literals in any '
+                 'unit reachable from Python', MIE_DIR)
 
 
 def option_slots(check, prog):
